@@ -30,6 +30,8 @@ func runC09(c *core.Ctx) {
 	h.staleSnapshotIgnored("C09.6 stale-snapshot-ignored")
 	h.snapshotOrder("C09.7 snapshot-order")
 	h.labelCoherence("C09.1c label-coherence")
+	c.Clause("C09.8 a snapshot being opened for a follower or a restore is pinned before its files are touched; pruning spares pinned and retained snapshots")
+	h.snapshotOpenPinned("C09.8 open-pinned")
 }
 
 func runC12(c *core.Ctx) {
@@ -77,4 +79,8 @@ func runC10(c *core.Ctx) {
 	h.openStorageRebuild("C10.7a restart-rebuild")
 	h.openStorageLoads("C10.9 restart-loads", "identity", "term", "last")
 	h.servePrologue("C10.7b serve-prologue")
+	c.Clause("C10.10 the stored files are found by reading the directory, whatever characters its path contains")
+	h.dirListingLiteral("C10.10 dir-listing")
+	c.Clause("C10.11 the storage lock does not outlive the process that took it")
+	h.lockReleasedByDeath("C10.11 lock-released-by-death")
 }
